@@ -32,7 +32,19 @@ def emitValue (cfg : ECfg) (al : List (Str × Val)) (e : EN) (esc translate : Bo
       | .str s => do
         let r ← liftX (fun env => callTranslate cfg env s none none)
         pure (Val.str r)
-      | _ => mUnsupported "tal:content with i18n:translate=\"\" of a value that is not text"
+      | .dflt | .markup _ => mUnsupported "tal:content with i18n:translate=\"\" of the default marker / markup"
+      | .obj id =>
+        match cfg.tab[id]? with
+        | some o =>
+          if o.translation.isSome then mUnsupported "tal:content with i18n:translate=\"\" of an object with a translation of its own"
+          else do
+            liftX (fun env x => .ok () { x with tlog := x.tlog.push (offerOf env.topFrame o.strForm) })
+            pure v0
+        | none => mUnsupported "unknown object"
+      | _ => do
+        let s ← mLiftR (Val.strOf cfg.tab v0)
+        liftX (fun env x => .ok () { x with tlog := x.tlog.push (offerOf env.topFrame s) })
+        pure v0
     else pure v0)
   liftX (fun env => offerCall cfg env v)
   let q ← mLiftR (toQIn cfg v)
